@@ -529,4 +529,18 @@ theorem C13_total_to_1000_code (cfg : Config) (hp : 1 ≤ cfg.precision)
     (by rw [hg]; omega)
   exact ⟨out, h, C13_accuracy_to_1000_code cfg hp x hx hx1000 fuel hfuel2 out h⟩
 
+
+/-- non-vacuity: `exp(1)` and `exp(-1000)` at the default 100 digits, with the driver's 20000 passes -
+    the hypotheses of `C13_total_to_1000_code` are met, so `e` and `e^-1000` are returned to within
+    less than one unit of the 100th digit -/
+example : ∃ out, (Dec.mk 1 0).exp ⟨100, .HalfEven, 5, 15, 1000, 100000⟩ estGuard 20000 = some out ∧ 0 < out.value ∧
+    |(out.value : ℝ) - Real.exp (((Dec.mk 1 0).value : ℚ) : ℝ)| < (10 : ℝ) ^ (-out.scale) :=
+  C13_total_to_1000_code ⟨100, .HalfEven, 5, 15, 1000, 100000⟩ (by decide) ⟨1, 0⟩ (by decide)
+    (by norm_num [Dec.value]) 20000 (by decide) (by decide)
+
+example : ∃ out, (Dec.mk (-1000) 0).exp ⟨100, .HalfEven, 5, 15, 1000, 100000⟩ estGuard 20000 = some out ∧ 0 < out.value ∧
+    |(out.value : ℝ) - Real.exp (((Dec.mk (-1000) 0).value : ℚ) : ℝ)| < (10 : ℝ) ^ (-out.scale) :=
+  C13_total_to_1000_code ⟨100, .HalfEven, 5, 15, 1000, 100000⟩ (by decide) ⟨-1000, 0⟩ (by decide)
+    (by norm_num [Dec.value]) 20000 (by decide) (by decide)
+
 end BigDec
